@@ -1,4 +1,5 @@
 import ZarrsModel.Model.Store
+import ZarrsModel.Model.FsStore
 import ZarrsModel.Driver.Proto
 /- driver handlers for C08: stateful (one model store per case) -/
 namespace Zarrs.DriverC08
@@ -73,18 +74,45 @@ def acceptable (m : KV) (op : StoreOp) (res : StoreRes) : List String :=
 structure St where
   kind : String := ""
   m : KV := []
+  /-- the directory-tree model of `FilesystemStore` (`Model/FsStore.lean`), run alongside for the kinds `fs`, `fsdio` -/
+  fs : Fs.FsState := some .nil
+  /-- `spec=0` in the `cfg` line: the key universe is not prefix-free, the ordered-map specification does not apply
+  and the implementation is compared with `fsStep` only -/
+  specOn : Bool := true
+
+/-- listings are compared sorted (the harness sorts them; `WalkDir` order is depth first by name) -/
+def sortRes : StoreRes → StoreRes
+  | .keys ks => .keys (Fs.FsState.sortKeys ks)
+  | r => r
 
 /-- returns the new state, the acceptable outcomes, and an optional note when the `MemoryStore` algorithm
 and the specification disagree (they are proved equal; this is a run-time cross-check of the driver) -/
 def handle (st : St) (l : Line) : Option (St × List String × Option String) := do
   let v1 ← l.verbs[1]?
   if v1 == "cfg" then
-    pure ({ kind := (← l.get "store"), m := [] }, ["ok"], none)
+    pure ({ kind := (← l.get "store"), m := [], fs := some .nil, specOn := l.get "spec" != some "0" }, ["ok"], none)
   else
     let op ← parseOp l
     let (m', r) := Spec.step st.m op
     let (m2, r2) := Mem.step st.m op
     let note := if m' == m2 && r == r2 then none else some ("Mem.step differs from Spec.step: " ++ showRes r2)
-    pure ({ st with m := m' }, acceptable st.m op r, note)
+    if st.kind == "fs" || st.kind == "fsdio" then
+      -- second prediction: the directory-tree model
+      let (f', fo) := Fs.fsStep st.fs op
+      let shown : Option String := match fo with | .outside => none | .res x => some (showRes (sortRes x))
+      let specAcc := acceptable st.m op r
+      let acc := if st.specOn then specAcc else (match shown with | some t => [t] | none => ["any"])
+      let n1 := match shown with
+        | some t => if t != l.outcome then some ("fsStep differs from the implementation: fsStep=" ++ t) else none
+        | none => if st.specOn then some "fsStep: outside the model on a specified case" else none
+      let n2 := match shown with
+        | some t => if st.specOn && !specAcc.contains t then some ("fsStep differs from Spec.step: fsStep=" ++ t) else none
+        | none => none
+      let n3 := if st.specOn && Fs.absFs f' != m' then some "absFs (fsStep) differs from the Spec.step state" else none
+      let notes := [note, n1, n2, n3].filterMap id
+      pure ({ st with m := if st.specOn then m' else st.m, fs := f' }, acc,
+        if notes.isEmpty then none else some ("; ".intercalate notes))
+    else
+      pure ({ st with m := m' }, acceptable st.m op r, note)
 
 end Zarrs.DriverC08
